@@ -107,6 +107,14 @@ func VerifC12Modes() {
 			if fi >= 0 && fi < nfiles && idx < len(e.match[fi]) {
 				m := e.match[fi][idx]
 				nd.Assert(nd.And(m.set, m.val), fmt.Sprintf("file %d: description of a change that did not apply to it", fi))
+				// a change whose rewrite failed did not apply either: the file is left as it was
+				failed := false
+				for _, re := range e.replaceErr[fi] {
+					if re.set {
+						failed = nd.Or(failed, re.val)
+					}
+				}
+				nd.Assert(nd.Not(failed), fmt.Sprintf("file %d: description printed although rewriting the file failed (nothing was applied to it)", fi))
 			} else {
 				nd.Assert(false, "description for an unknown file or change")
 			}
